@@ -37,6 +37,7 @@ func verifHarness_C20_observer() {
 		}()
 		obs.ReportStreamValue(idx, delta)
 	}()
+	verifObserve("report", panicked)
 	if panicked {
 		verifReach("report-panicked")
 	}
